@@ -174,6 +174,24 @@ def overlap_choices(ns, exclude=()):
     return out
 
 
+def related_batch_choices(ns, exclude=()):
+    """(subjects, objects): a batch of 2-3 modules containing at least one ancestor/descendant
+    pair on one side, a single module unrelated to all of them on the other side.  For plain
+    should / should_not rules the statement of C11 pins the meaning (conjunction over the batch)."""
+    cand = [x for x in ns if x not in exclude]
+    out = []
+    for k in (2, 3):
+        for batch in itertools.combinations(cand, k):
+            if unrelated(batch):
+                continue
+            for s in cand:
+                if s in batch or any(a == s or a.startswith(s + ".") or s.startswith(a + ".") for a in batch):
+                    continue
+                out.append(((s,), batch))
+                out.append((batch, (s,)))
+    return out
+
+
 def rule_specs(ns, max_s=3, max_o=3, antichain=True, exclude=None, aliases=True, kinds=KINDS, overlap=False):
     """All rule specs of R(G) over the module names ns (root excluded by default).
     overlap=True adds the rules in which a module is both subject and object (same filter kind on
@@ -181,6 +199,12 @@ def rule_specs(ns, max_s=3, max_o=3, antichain=True, exclude=None, aliases=True,
     exclude = (ns[0],) if exclude is None else exclude
     out = []
     if overlap:
+        for subj, obj in related_batch_choices(ns, exclude):
+            for sk in kinds:
+                for ok in kinds:
+                    for verb in ("should", "should_not"):
+                        for imp in (True, False):
+                            out.append(dict(verb=verb, imp=imp, exc=False, sk=sk, subj=subj, ok=ok, obj=obj))
         for subj, obj in overlap_choices(ns, exclude):
             for kind in kinds:
                 for verb, imp, exc in SHAPES:
